@@ -26,6 +26,11 @@ func c17Make(e string) []c17Identity {
 		{"[" + e + ", a]", "concat:[" + e + "]+[a]", "nonnull"},
 		{"{k: " + e + "}.k", e, "nonnull"},
 		{"a[*] | [0]", "(a[*])[0]", ""},
+		{"(a[*].b)." + e, "a[*].b | " + e, "dotpipe"},
+		{"(a[?b].a)." + e, "a[?b].a | " + e, "dotpipe"},
+		{"(a[].b)." + e, "a[].b | " + e, "dotpipe"},
+		{"(a.*.b)." + e, "a.*.b | " + e, "dotpipe"},
+		{"(a[1:].b)." + e, "a[1:].b | " + e, "dotpipe"},
 	}
 }
 
